@@ -38,10 +38,10 @@ func c20Profile(t interface{ Chance(int, int) bool }, flagCount uint32) app.Prof
 	return app.Profile{
 		MaxNodes: 6, MaxExt: 3, FlagCount: flagCount,
 		Menus: true, Sinks: false,
-		ExtFlags: true, ExtTerminate: true, Catch: true,
+		ExtFlags: true, ExtTerminate: true, Catch: true, Croak: t.Chance(1, 3),
 		ExtErrPct: 3, EmptyPct: 3,
 		SingleRoute: t.Chance(1, 2), RelTargets: true, EndNodes: true,
-		CatchShape: -1, EndWeight: 2, InputWeight: 4,
+		CatchShape: -1, EndWeight: 2, InputWeight: 4, EndAfterInput: true,
 	}
 }
 
